@@ -189,7 +189,8 @@ def main(argv=None):
         print("baseline recorded: %d proved obligations (%s)" % (len(b[tier]), tier))
 
     # ---- replays for violations --------------------------------------------------------
-    os.makedirs(os.path.join(VERIF, "replays"), exist_ok=True)
+    replay_dir = os.environ.get("PYDV_REPLAY_DIR", os.path.join(VERIF, "replays"))
+    os.makedirs(replay_dir, exist_ok=True)
     vlines = []
     for e in violations:
         fb = e["first_bad"] or {}
@@ -205,7 +206,7 @@ def main(argv=None):
                 concrete = {"confirmed": False, "error": "%s: %s" % (type(ex).__name__, ex)}
         rp["concrete_replay"] = concrete
         safe = re.sub(r"[^A-Za-z0-9_.-]+", "_", e["name"])[:120]
-        rpath = os.path.join(VERIF, "replays", "%s-%s.json" % (prop, safe))
+        rpath = os.path.join(replay_dir, "%s-%s.json" % (prop, safe))
         json.dump(rp, open(rpath, "w"), indent=1, default=str)
         suffix = "" if (concrete and concrete.get("confirmed")) else " no-failing-input-found"
         vlines.append("VIOLATION property=%s replay=%s obligation=%s%s" % (prop, rpath, e["name"], suffix))
@@ -245,8 +246,9 @@ def main(argv=None):
     }
     ev = {"property_id": prop, "tier": tier, "seed": seed, "level": level, "coverage": coverage,
           "assumptions": meta.get("assumptions", []), "wall_s": round(wall, 2), "violations": len(violations)}
-    os.makedirs(os.path.join(VERIF, "evidence"), exist_ok=True)
-    evpath = os.path.join(VERIF, "evidence", prop + ".json")
+    evdir = os.environ.get("PYDV_EVIDENCE_DIR", os.path.join(VERIF, "evidence"))
+    os.makedirs(evdir, exist_ok=True)
+    evpath = os.path.join(evdir, prop + ".json")
     json.dump(ev, open(evpath, "w"), indent=1, default=str)
 
     # ---- verdict -----------------------------------------------------------------------------
@@ -284,7 +286,7 @@ def main(argv=None):
             except Exception as ex:
                 fo = None
             if fo and fo.get("confirmed"):
-                rpath = os.path.join(VERIF, "replays", "%s-fallback.json" % prop)
+                rpath = os.path.join(replay_dir, "%s-fallback.json" % prop)
                 json.dump(fo, open(rpath, "w"), indent=1, default=str)
                 print("VIOLATION property=%s replay=%s obligation=concrete-oracle(engine could not model the code)" % (prop, rpath))
                 return 1
